@@ -17,11 +17,18 @@ fn repo_copy(tag: &str) -> PathBuf {
     dir
 }
 
+/// commit dates are a function of the case and the number of git calls so far: object and pack names, and with them the order
+/// in which the store lists index files, are the same whenever a case is run again
+static GIT_CLOCK: std::sync::atomic::AtomicU64 = std::sync::atomic::AtomicU64::new(1_000_000_000);
+
 fn git(repo: &Path, args: &[&str]) -> bool {
+    let now = GIT_CLOCK.fetch_add(1, std::sync::atomic::Ordering::SeqCst);
     std::process::Command::new("git")
         .current_dir(repo)
         .args(["-c", "core.fsync=none", "-c", "gc.auto=0"])
         .args(args)
+        .env("GIT_AUTHOR_DATE", format!("{now} +0000"))
+        .env("GIT_COMMITTER_DATE", format!("{now} +0000"))
         .env("GIT_CONFIG_NOSYSTEM", "1")
         .env("GIT_CONFIG_GLOBAL", "/dev/null")
         .stdout(std::process::Stdio::null())
@@ -101,6 +108,7 @@ fn open(repo: &Path, slots: u16) -> ArcHandle {
 }
 
 fn calls_case(case: &Json) -> Json {
+    GIT_CLOCK.store(case["date"].as_u64().unwrap_or(1_000_000_000), std::sync::atomic::Ordering::SeqCst);
     let repo = repo_copy("calls");
     let slots = case["slots"].as_u64().unwrap_or(8) as u16;
     let a = open(&repo, slots);
@@ -162,7 +170,9 @@ fn calls_case(case: &Json) -> Json {
         out.push(r);
     }
     drop((a, b, s));
-    let _ = std::fs::remove_dir_all(&repo);
+    if std::env::var_os("VERIF_C12_KEEP").is_none() {
+        let _ = std::fs::remove_dir_all(&repo);
+    }
     Json::Array(out)
 }
 
